@@ -1,11 +1,5 @@
-mod engine;
-mod gen;
-mod hist;
-mod tex;
-mod norm;
-mod props;
-
-use engine::*;
+use mcv::engine::*;
+use mcv::{engine, props};
 use std::time::Instant;
 
 fn run_property<P: Property>(p: &P, tier: Tier) -> i32 {
@@ -127,6 +121,58 @@ fn main() {
         "replay" => {
             let file = args[3].clone();
             dispatch!(args[2].as_str(), replay_one, &file)
+        }
+        "fuzz-corpus" => {
+            // mcv fuzz-corpus <C02|C08|C19> <dir>: seed inputs for the libFuzzer target of that property
+            let dir = args[3].clone();
+            std::fs::create_dir_all(&dir).expect("create corpus dir");
+            let mut n = 0;
+            if args[2] == "C19" {
+                for (i, intent) in ["f($a,$b)", "plus($a,$b)", "$a", ":prefix", "foo($a)($b)", "binomial($a, $b)", "_($a)", "f(", "$", "foo:infix($a,$b)", ""].iter().enumerate() {
+                    for host in 0..3u8 {
+                        let mut v = vec![host * 3, (i % 2) as u8, 0];
+                        v.extend_from_slice(intent.as_bytes());
+                        std::fs::write(format!("{}/seed-{}-{}", dir, i, host), v).unwrap();
+                        n += 1;
+                    }
+                }
+            } else {
+                for (i, e) in props::c15::corpus().iter().enumerate() {
+                    if e.len() < 700 && i % 3 == 0 {
+                        let mut v = vec![0u8];
+                        v.extend_from_slice(e.as_bytes());
+                        std::fs::write(format!("{}/seed-{}", dir, i), v).unwrap();
+                        n += 1;
+                    }
+                }
+            }
+            println!("{} seed files written to {}", n, dir);
+            0
+        }
+        "fuzz-replay" => {
+            // mcv fuzz-replay <C02|C08|C19> <file>...: evaluate saved fuzzer inputs with the stable build
+            static P02: props::c02::C02 = props::c02::C02;
+            static P08: mcv::fuzzing::C08Expr = mcv::fuzzing::C08Expr;
+            static P19: props::c19::C19 = props::c19::C19;
+            let mut bad = 0;
+            for f in &args[3..] {
+                let Ok(data) = std::fs::read(f) else { continue };
+                let v = match args[2].as_str() {
+                    "C02" => mcv::fuzzing::evaluate(&P02, mcv::fuzzing::c02_case(&data)),
+                    "C08" => mcv::fuzzing::evaluate(&P08, mcv::fuzzing::c08_case(&data)),
+                    "C19" => mcv::fuzzing::evaluate(&P19, mcv::fuzzing::c19_case(&data)),
+                    _ => vec![],
+                };
+                for (sig, detail) in v {
+                    bad += 1;
+                    println!("VIOLATION property={} replay={}\n  signature: {}\n  detail: {}", args[2], f, sig, detail.chars().take(600).collect::<String>().replace('\n', "\n    "));
+                }
+            }
+            if bad > 0 {
+                1
+            } else {
+                0
+            }
         }
         "show" => {
             // mcv show speech|braille|canon '<math>..</math>' [pref=value ...]
